@@ -21,7 +21,7 @@ CHECKS = {
         note=POOL_NOTE),
     "C04": dict(engine="poolsim+netsim", ref="§5 C04, §4 E1, §10.3",
         technique="stateful property-based testing; necessary-condition rules over harness ground truth (reuse, HTTP/2 dial dedup, sharing, cancel preserves) compared with the transport's connect() calls",
-        text="Rules A-D of DESIGN §5 C04 evaluated on ground truth kept by the harness: a request issued while a reusable connection certainly exists never dials; an HTTP/2 request issued while an HTTP/2 attempt for its origin is in flight never dials; cancelling a request that never used a connection leaves every healthy connection alive. An end-to-end leg (netsim, real hyper connections) requires all requests of a pooled client to an HTTP/2-only origin, bursts included, to arrive on one accepted connection.",
+        text="Rules A-D of DESIGN §5 C04 evaluated on ground truth kept by the harness (generic, profile and a mixed-version-churn leg: one origin, HTTP/1 and HTTP/2 requests, ALPN upgrades, failing attempts, peer closes, cancels): a request issued while a reusable connection certainly exists never dials; an HTTP/2 request issued while an HTTP/2 attempt for its origin is in flight never dials; cancelling a request that never used a connection leaves every healthy connection alive. An end-to-end leg (netsim, real hyper connections) requires all requests of a pooled client to an HTTP/2-only origin, bursts included, to arrive on one accepted connection.",
         note=POOL_NOTE + " Rule preconditions are lower bounds (ambiguity can hide violations, never invent them); one documented exclusion for rule B (DESIGN §5 C04)."),
     "C05": dict(engine="poolsim", ref="§5 C05, §4 E1",
         technique="stateful property-based testing with peer-close faults injected at every stage; hand-off invariant against recorded close/entry steps; small real-time leg for idle expiry",
@@ -55,7 +55,7 @@ CHECKS.update({
         note=EYE_NOTE),
     "C16": dict(engine="addrsort", ref="§5 C16, §4 E7",
         technique="exhaustive small-scope enumeration plus property-based testing against an independent specification (stable partition); end-to-end differential leg over loopback listeners",
-        text="All IPv4/IPv6 family patterns up to length 8 (quick) / 12 (thorough) for the four local-binding combinations, exhaustively, plus random lists with duplicates: output is a permutation, first/second element and remainder order equal the specification, set_port applies to every address; through TcpTransport with a scripted resolver and local bindings (none, loopback, wildcard) the accepted peer is the first live address of the specified order, also when addresses in front of it hang (listeners that never answer: the next address is tried after the stagger delay).",
+        text="All IPv4/IPv6 family patterns up to length 8 (quick) / 12 (thorough) for the four local-binding combinations, exhaustively, plus random lists with duplicates: output is a permutation, first/second element and remainder order equal the specification, set_port applies to every address; through TcpTransport with a scripted resolver and local bindings (none, loopback, wildcard) the socket is opened to the URI's port (explicit, or 80/443 by scheme) whatever port the resolver's answer carries, through TcpTransport and SimpleTcpTransport; the accepted peer is the first live address of the specified order, also when addresses in front of it hang (listeners that never answer: the next address is tried after the stagger delay).",
         note="Trusted base: the hook wrappers call the crate-private routines unchanged; loopback networking for the end-to-end leg (dead addresses are sockets held bound without listening: refused at once, immediate compared with the >= 570 ms stagger, and not bindable by anyone else meanwhile)."),
     "C20": dict(engine="sni+tlsstack", ref="§5 C20, §4 E10, §10.3",
         technique="grammar-based property testing of the public ValidateSNI layer against an independent reference predicate (two-directional: never forwarded on mismatch, never rejected on match)",
@@ -100,7 +100,7 @@ NET_NOTE = ("Trusted base: tokio current_thread scheduler with paused clock (sch
 CHECKS.update({
     "C01": dict(engine="netsim+poolsim+tcpe2e", ref="§5 C01, §4 E2/E1",
         technique="end-to-end property-based testing in virtual time: generated concurrent request scripts with id-tagged payloads through the real client stack, pool, hyper and Server; two-directional oracle (handler checks every request, client checks every response); plus a pool-level leg requiring every uncancelled request of a fault-free history to succeed",
-        text="Up to 8/24 concurrent requests over 1-3 h1/h2/auto servers with streamed patterned bodies, generated header sets on requests and responses (repeated names, empty, 3 kB and opaque non-ASCII values, compared per name and in order), chunked responses, handler delays, cancellations at any instant, pool on/off and all pool settings, followed redirects (303 to another origin; every hop must name the origin it is sent to), and HTTP/1.1 protocol upgrades (101 followed by a raw patterned exchange over the taken-over connection, checked at both ends incl. end-of-stream, never followed by another request on that connection): every handled request must carry exactly what its caller sent and every uncancelled request must complete with the response produced for its own id and origin. A real-socket leg drives the default Client (Client::build_tcp_http: TCP transport, system resolver, default pool/redirects/timeout) through request() and its tower Service impl against a real Server on loopback TCP. The open finding (KNOWN_FINDINGS.txt) is matched by signature and does not mask other violations.",
+        text="Up to 8/24 concurrent requests over 1-3 h1/h2/auto servers with streamed patterned bodies, generated header sets on requests and responses (repeated names, empty, 3 kB and opaque non-ASCII values, compared per name and in order), chunked responses, handler delays, cancellations at any instant, pool on/off and all pool settings, followed redirects (303 to another origin; every hop must name the origin it is sent to), and HTTP/1.1 protocol upgrades (101 followed by a raw patterned exchange over the taken-over connection, checked at both ends incl. end-of-stream, never followed by another request on that connection): every handled request must carry exactly what its caller sent and every uncancelled request must complete with the response produced for its own id and origin. A real-socket leg drives the default Client (Client::build_tcp_http: TCP transport, system resolver, default pool/redirects/timeout) through request() and its tower Service impl against a real Server on loopback TCP. A body-adapter leg builds hyperdriver::Body through each public constructor, reads it directly, through as_boxed and through try_clone against the http_body contract (frames = data, size-hint bounds at every step, end-of-stream only without data to come) and sends it end to end in both directions over HTTP/1 and HTTP/2. The open finding (KNOWN_FINDINGS.txt) is matched by signature and does not mask other violations.",
         note=NET_NOTE),
     "C07": dict(engine="netsim", ref="§5 C07, §4 E2",
         technique="virtual-time schedule generation: the graceful-shutdown signal instant is swept relative to accept, protocol detection, request transfer, handler execution and response transfer; history invariants over the handler log, the executor-wrapped connection tasks and the client results",
